@@ -45,6 +45,9 @@ TEMPLATES = {
     "crlf": (
         "from inline_snapshot import snapshot\r\n\r\ndef test_a():\r\n    assert xs == snapshot([c0, c1])  \r\n    assert x0 <= snapshot(c2)\r\n    assert k0 == snapshot(c3)\r\n"
     ),
+    "bom_first_line": (
+        "\ufefffrom inline_snapshot import snapshot; s0 = snapshot([c0, c1])  # first line\n\ndef test_a():\n    assert xs == s0\n    assert x0 <= snapshot(c2)\n    assert k0 == snapshot(c3)\n"
+    ),
     "formfeed_semicolons": (
         "from inline_snapshot import snapshot\n\x0c\ndef test_a():\n    a = 1; b = 2;\n    assert xs == snapshot([c0, c1]); assert x0 <= snapshot(c2); assert k0 == snapshot(c3);\n"
     ),
@@ -65,7 +68,7 @@ def layout_case(tname, n_new, approved, leafvals):
     ns["k0"] = leafvals["c3"]
     world.reset(ns)
     t = TEMPLATES[tname]
-    if tname == "crlf":
+    if tname in ("crlf", "bom_first_line"):
         # line endings are a property of the bytes on disk: this layout goes through the real hooks and the real write
         world.install_plugin_shims()
         pr = world.plugin_session({"test_a.py": t}, cli=",".join(sorted(approved)) if approved else "report")
@@ -84,6 +87,12 @@ def layout_case(tname, n_new, approved, leafvals):
     old, new = r.text_before, r.text
     with world.NoTracing():
         old_s, new_s = str(old), str(new)
+        if old_s.startswith("\ufeff"):
+            # the byte order mark is kept; it is no part of the code that the oracles below parse
+            if not new_s.startswith("\ufeff"):
+                return False
+            old_s, new_s = old_s[1:], new_s[1:]
+            old, new = old_s, new_s
         try:
             ast.parse(new_s)
         except SyntaxError:
